@@ -543,6 +543,46 @@ func stressConfig(n, iters int, r *stressRes) {
 	_ = resumed
 }
 
+// one LRU client session cache (what a Config shares between all its connections) used from many goroutines
+func stressLRU(n, iters int, r *stressRes) {
+	cache := gmtls.NewLRUClientSessionCache(6)
+	keys := []string{"k0", "k1", "k2", "k3", "k4", "k5", "k6", "k7"}
+	vals := map[string]*gmtls.ClientSessionState{}
+	for _, k := range keys {
+		vals[k] = &gmtls.ClientSessionState{}
+	}
+	for _, k := range keys[:6] {
+		cache.Put(k, vals[k])
+	}
+	parallel(n, func(g int) {
+		for i := 0; i < iters; i++ {
+			guard(r, "LRU session cache", func() {
+				k := keys[(g+i)%len(keys)]
+				if cs, ok := cache.Get(k); ok && cs != vals[k] {
+					r.bad("Get(%s) returned the session stored under another key", k)
+				}
+				if i%7 == 3 {
+					cache.Put(k, vals[k])
+				}
+				atomic.AddInt64(&r.Ops, 1)
+			})
+		}
+	})
+	// afterwards the cache still answers consistently and holds at most its capacity
+	held := 0
+	for _, k := range keys {
+		if cs, ok := cache.Get(k); ok {
+			held++
+			if cs != vals[k] {
+				r.bad("after the run Get(%s) returns another key's session", k)
+			}
+		}
+	}
+	if held > 6 {
+		r.bad("the cache of capacity 6 holds %d sessions", held)
+	}
+}
+
 func stressRun(what string, n, iters int) *stressRes {
 	r := &stressRes{}
 	switch what {
@@ -562,6 +602,8 @@ func stressRun(what string, n, iters int) *stressRes {
 		stressSetIV(n, iters, r)
 	case "config":
 		stressConfig(n, iters, r)
+	case "lru":
+		stressLRU(n, iters, r)
 	default:
 		r.bad("unknown driver %s", what)
 	}
